@@ -150,6 +150,39 @@ def opDec (args : List String) (impl : String) : Result :=
     | _, _, _, _ => noModel
   | _ => noModel
 
+/-- decf <fmt> <bufsize> <lastEOF> <maxNext> <failAt> <chunks>: pull decoder with a visitor that
+fails from its k-th event on.  Oracle (C16): the call during which the visitor failed returns an
+error (not ok, not eof) and no event is delivered after the failing one. -/
+def opDecF (args : List String) (impl : String) : Result :=
+  match args with
+  | [fmt, bs, le, mn, fa, cs] =>
+    match decToNat? bs, decToNat? mn, decToNat? fa, parseChunks cs with
+    | some bufsize, some maxNext, some failAt, some chunks =>
+      let model := match fmt with
+        | "cbor" => some (Cbor.decFaultModel failAt bufsize maxNext chunks)
+        | "ubj" => some (Ubjson.decFaultModel failAt bufsize (le == "1") maxNext chunks)
+        | "json" => some (Json.decFaultModel failAt bufsize (le == "1") maxNext chunks)
+        | _ => none
+      -- count the events delivered per call; the call that reaches event index failAt must fail
+      let calls := impl.splitOn ";"
+      let counts := calls.map fun c =>
+        let (e, r) := splitOnce c '='
+        ((if e == "-" || e == "" then 0 else (e.splitOn ",").length), r)
+      let rec scan (cs : List (Nat × String)) (sofar : Nat) : List String :=
+        match cs with
+        | [] => []
+        | (n, r) :: rest =>
+          let total := sofar + n
+          if total > failAt + 1 then [s!"C16 {fmt}-decoder-delivers-events-after-visitor-error k={failAt} delivered={total}"]
+          else if total == failAt + 1 then
+            (if r == "err" then [] else [s!"C16 {fmt}-decoder-loses-visitor-error k={failAt} result={r}"]) ++
+            (if rest.any (fun x => x.1 > 0) then [s!"C16 {fmt}-decoder-delivers-events-after-visitor-error k={failAt}"] else [])
+          else scan rest total
+      let fails := if isBad impl then [s!"C16 {fmt}-decoder-{impl}"] else scan counts 0
+      { model := model, fails := fails }
+    | _, _, _, _ => noModel
+  | _ => noModel
+
 /-- rt <fmt> <opts> <xevents> -/
 def opRT (args : List String) (impl : String) : Result :=
   match args with
@@ -348,6 +381,7 @@ def runLine (op : String) (impl : String) : Result :=
   | "enc" :: args => opEnc args impl
   | "parse" :: args => opParse args impl
   | "dec" :: args => opDec args impl
+  | "decf" :: args => opDecF args impl
   | "rt" :: args => opRT args impl
   | "chunk" :: args => opChunk args impl
   | "ext" :: args => opExt args impl
@@ -364,6 +398,15 @@ def runLine (op : String) (impl : String) : Result :=
   | "unf-seq" :: args => opUnfSeq args impl
   | "fu" :: args => opFu args impl
   | "unf-user" :: _ => opUnfUser impl
+  | "foldopts" :: _ =>
+    -- option values shared between successive iterators / unfolders vs option values created
+    -- for each use: an option value must not be changed by being used
+    { model := some "same",
+      fails := if impl.startsWith "differ" then
+                 [s!"C12 fold-depends-on-what-shared-option-values-were-used-for-before {impl.take 200}",
+                  s!"C17 instance-built-from-used-option-values-differs-from-fresh {impl.take 120}",
+                  s!"C19 instances-interfere-through-shared-option-values {impl.take 120}"]
+               else [] }
   | "foldifc" :: _ =>
     -- static types that are non-empty interfaces (outside the mirror's universe): the fold must
     -- equal the fold of the same data held in interface{} containers; a dead child = an
